@@ -35,6 +35,7 @@ ElemOf(ev) ==
       [] ev.e = "AuthFields"                -> [k |-> "AuthFields", plain |-> ev.plain, digest |-> ev.digest]
       [] ev.e = "BindResult"                -> [k |-> "BindResult", ok |-> ev.ok]
       [] ev.e = "Enabled"                   -> [k |-> "Enabled", resume |-> ev.resume]
+      [] ev.e = "Success2"                  -> [k |-> "Success2", res |-> ev.res, bnd |-> ev.bnd]
       [] OTHER                              -> [k |-> ev.e]
 
 ModelAct(ev) ==
